@@ -93,6 +93,31 @@ def rule_ndv(ctx) -> RuleResult:
         res.inst(f"{spec} uses shared.FLOAT_NDV ({sorted(names)})", ok=bool(ok))
         if not ok:
             res.find(spec.split(".")[0], spec.split(".")[1], f"no-data constant(s) {sorted(names)}", fn.where, "reader and writer disagree on the float no-data code")
+    # the no-data value is never cast to a dtype taken from the user's array
+    nd = p.cls("NumericData")
+    seen = set()
+    for K in p.subclasses(nd):
+        for fn in list(K.methods.values()):
+            if fn in seen:
+                continue
+            seen.add(fn)
+            for c in ast.walk(fn.node):
+                if not isinstance(c, ast.Call):
+                    continue
+                f = unparse(c.func)
+                fill = None
+                dt = next((k.value for k in c.keywords if k.arg == "dtype"), None)
+                if f in ("np.full", "np.full_like") and len(c.args) >= 2:
+                    fill = c.args[1]
+                elif f in ("np.array", "np.asarray") and c.args:
+                    fill = c.args[0]
+                if fill is None or dt is None:
+                    continue
+                if any(isinstance(x, ast.Attribute) and x.attr in ("nan_value", "ndv") for x in ast.walk(fill)) and ".dtype" in unparse(dt):
+                    res.inst(f"{fn.qualname}:{c.lineno} no-data value cast to {unparse(dt)}", ok=False)
+                    res.find(fn.cls.name, fn.name, f"no-data value cast to the input's dtype: {unparse(c)[:60]}", f"{fn.module.relpath}:{c.lineno}",
+                             "the no-data code is forced into the dtype of the user's array: for narrow dtypes (int8, int16, ...) it wraps to another "
+                             "number (0) and gaps become indistinguishable from real values")
     # reference key 0 <-> "Unknown"
     rvm = p.cls("ReferenceValueMap")
     vk = rvm.methods.get("_validate_key_value")
